@@ -6,7 +6,7 @@ from harness.common import CONFIGS, F, enc, fl
 
 ID = "C17"
 PROPS_FILE = "Props/C17.v"
-COQ_IMPORTS = "From SA Require Import Model.HarnessC17."
+COQ_IMPORTS = "From SA Require Import Model.HarnessC17.\nFrom SA Require Model.FloatInvertPL.\nFrom Coq Require Import Floats.PrimFloat."
 GEN_AVAILABLE = set()
 
 
@@ -23,7 +23,8 @@ RULE = ("two streams. inv: invert_pl_function on structured curves (x non-decrea
         "doubles; scalar and array targets incl. empty). tam: Scores.threshold_at_metric with the six rate metrics by "
         "name and as a recording callable, points None / int k / user array, all four configurations, easy counts, and "
         "the ValueError guards. A case is non-trivial when some target has >= 2 solutions or none (fallback)")
-TRUSTED = ["numpy broadcasting of the (N,1)x(1,T) comparison, np.nonzero row-major order, np.argmin = first minimal "
+TRUSTED = ["Model/FloatInvertPL.v (binary64 model of invert_pl_function over Coq primitive floats, compared bit for bit on every finite inv case): kernel float primitives + vm_compute on hardware doubles; correspondence only",
+           "numpy broadcasting of the (N,1)x(1,T) comparison, np.nonzero row-major order, np.argmin = first minimal "
            "index, np.linspace(start, stop, k) = start + i*(stop-start)/(k-1): modelled, checked by correspondence",
            "float rounding of la and of the convex sum is outside the exact-rational model: bit-exact comparison only on "
            "cases where every float operation is exact (decided per case in exact arithmetic), 2^-40 relative otherwise"]
@@ -522,22 +523,37 @@ def _fallback_inexact(y, ts):
     return False
 
 
+def _float_inv_term(case, r):
+    """binary64 model (Model/FloatInvertPL.v): every returned point bit for bit, any finite input"""
+    import math
+    if r.get("raised") or r.get("bare") is None or not case["x"]:
+        return None
+    xs, ys, ts = [fl(v) for v in case["x"]], [fl(v) for v in case["y"]], [fl(v) for v in case["t"]]
+    sols = r["sols"]
+    if len(sols) != len(ts) or any(v is None or not math.isfinite(fl(v)) for sol in sols for v in sol):
+        return None
+    pairs = "; ".join(f"({cq.f64(t)}, {cq.f64list(fl(v) for v in sol)})" for t, sol in zip(ts, sols))
+    return f"(FloatInvertPL.finvert_check {cq.f64list(xs)} {cq.f64list(ys)} [{pairs}])"
+
+
 def coq_term(case, res):
     if "ok" not in res:
         return "false"
     r = res["ok"]
     ts = [F(t) for t in case["t"]]
+    if case["kind"] == "inv" and len(case["x"]) > 2000:
+        return _float_inv_term(case, r)   # long curves: the binary64 model (primitive floats) and the oracle's exact scan
     if case["kind"] == "inv":
-        if len(case["x"]) > 2000:
-            return None   # long curves: checked by the oracle (the exact scan), not sent through vm_compute
         x = [F(v) for v in case["x"]]
         y = [F(v) for v in case["y"]]
         if r.get("bare") is None and not r.get("raised"):
             return "false"
         if _fallback_inexact(y, ts):
-            return None
+            return _float_inv_term(case, r)     # the float argmin may tie where the exact one does not: binary64 model only
         tol = _tolz(x, y, ts) if _wf_curve(x, y) else Fraction(1, 2 ** 40)
-        return f"(inverted_agree {cq.q(tol)} (invert_pl {cq.qlist(x)} {cq.qlist(y)} {_tg(case)}) {_inverted(r)})"
+        ft = _float_inv_term(case, r)
+        return (f"(inverted_agree {cq.q(tol)} (invert_pl {cq.qlist(x)} {cq.qlist(y)} {_tg(case)}) {_inverted(r)})"
+                + (f" && {ft}" if ft else ""))
     s = (f"(mk_scores {cq.qlist(F(v) for v in case['pos'])} {cq.qlist(F(v) for v in case['neg'])} "
          f"{cq.z(case['ep'])} {cq.z(case['en'])} {cq.label(case['sc'])} {cq.label(case['ec'])} false)")
     p = case["points"]
